@@ -48,6 +48,7 @@ type tsyncScript struct {
 	Preload     bool     `json:"preload"`      // the loader first loads the same policy without thread-sync
 	Divergent   bool     `json:"divergent"`    // the first phase thread installs a private filter (policy B) before the load
 	PriorSync   bool     `json:"prior_sync"`   // the loader first loads another policy (B) WITH thread-sync: every thread then has one filter; the load under test follows
+	Uname26     bool     `json:"uname26"`      // the child runs under the UNAME26 personality: uname(2) reports release 2.6.x
 	OuterENOSYS bool     `json:"outer_enosys"` // the whole process already runs under a filter that answers ENOSYS to seccomp(2) (as if the kernel lacked it)
 }
 
